@@ -123,6 +123,56 @@ def line_start_rewrite(pattern, repl, flags):
     return {'every_line': tree[0][1] == 'AT_BEGINNING_LINE', 'cases': cases}
 
 
+def line_map(node):
+    """A term that is `'\\n'.join(f(line) for line in S.split('\\n'))` with f one of
+         PFX + line if line.startswith(LIT) else line     (insert PFX in front of every line that starts with LIT)
+         line[len(LIT):] if line.startswith(LIT) else line / line.removeprefix(LIT)     (remove LIT from the start of every line)
+    -> ('lines', {'every_line': True, 'cases': [(consumed, lookahead, result)]}, subject node); else None."""
+    ps = T.pieces(node)
+    if not (len(ps) == 1 and ps[0][0] == 'J' and ps[0][1] == '\n' and isinstance(ps[0][2], ast.Name) and len(ps[0][4]) == 1 and ps[0][4][0][0] == 'V'):
+        return None
+    _, _, var, coll, inner = ps[0]
+    cm = T.match(coll, "_S.split('\\n')")
+    if cm is None:
+        return None
+    elt = inner[0][1]
+    v = T.show(var)
+
+    def starts(test):
+        """(literal, negated) if the test says that the line starts with a literal"""
+        neg = False
+        while isinstance(test, ast.UnaryOp) and isinstance(test.op, ast.Not):
+            test, neg = test.operand, not neg
+        m = T.match(test, '_V.startswith(_L)')
+        if m and T.show(m['_V']) == v and isinstance(m['_L'], ast.Constant) and isinstance(m['_L'].value, str):
+            return m['_L'].value, neg
+        for pat in ('SLICE(_V, None, _N) == _L', '_L == SLICE(_V, None, _N)'):
+            m = T.match(test, pat)
+            if m and T.show(m['_V']) == v and isinstance(m['_L'], ast.Constant) and isinstance(m['_L'].value, str) and \
+                    isinstance(m['_N'], ast.Constant) and m['_N'].value == len(m['_L'].value):
+                return m['_L'].value, neg
+        return None
+    rm = T.match(elt, '_V.removeprefix(_L)')
+    if rm and T.show(rm['_V']) == v and isinstance(rm['_L'], ast.Constant) and isinstance(rm['_L'].value, str):
+        return ('lines', {'every_line': True, 'cases': [(rm['_L'].value, '', '')]}, cm['_S'])
+    if not isinstance(elt, ast.IfExp):
+        return None
+    st = starts(elt.test)
+    if st is None:
+        return None
+    lit, neg = st
+    hit, other = (elt.orelse, elt.body) if neg else (elt.body, elt.orelse)
+    if T.show(other) != v:
+        return None
+    hp = T.pieces(hit)
+    if len(hp) == 2 and hp[0][0] == 'L' and hp[1][0] == 'V' and T.show(hp[1][1]) == v:
+        return ('lines', {'every_line': True, 'cases': [('', lit, hp[0][1])]}, cm['_S'])
+    sm = T.match(hit, 'SLICE(_V, _N, None)')
+    if sm and T.show(sm['_V']) == v and isinstance(sm['_N'], ast.Constant) and sm['_N'].value == len(lit):
+        return ('lines', {'every_line': True, 'cases': [(lit, '', '')]}, cm['_S'])
+    return None
+
+
 def strips_trailing_blanks(pattern, flags):
     """[ \\t]+ immediately before an end-of-line assertion (optionally tolerating a CR), on every line, and nothing else."""
     try:
@@ -177,7 +227,7 @@ def _returned_substitution(prog, fn):
     for s in Interp(prog, Scenario(inline=noinline)).run(fn):
         if s.raised is not None:
             continue
-        sub = substitution(render(s.ret))
+        sub = substitution(render(s.ret)) or line_map(render(s.ret))
         if sub is None:
             raise AnalysisError('%s: unrecognised implementation shape: %s' % (fn.qualname, render(s.ret)[:120]))
         subs.append(sub[:-1] + (T.show(sub[-1]) == ps[0], T.show(sub[-1])))
@@ -203,11 +253,14 @@ def dash_pair(rep, prog, M):
                       'escaping by replacing %r cannot match at the very start of the text: a first line beginning with "-" is not escaped' % e[1],
                       where=esc.where, expected="re.sub(r'^-', '- -', text, flags=re.MULTILINE)", found='text.replace(%r, %r)' % (e[1], e[2]))
         return
-    _, pe, re_, fe = e
-    rw = line_start_rewrite(pe, re_, fe) if e[0] == 're' else None
-    rep.check(rw is not None and rw['every_line'], 'C11.1', 'PGPMessage.dash_escape', 'pattern %r flags %d' % (pe, fe),
+    if e[0] == 'lines':
+        rw, shown_e = e[1], 'per-line map %s' % (e[1]['cases'],)
+    else:
+        _, pe, re_, fe = e
+        rw, shown_e = (line_start_rewrite(pe, re_, fe) if e[0] == 're' else None), 'pattern %r replacement %r flags %d' % (pe, re_, fe)
+    rep.check(rw is not None and rw['every_line'], 'C11.1', 'PGPMessage.dash_escape', shown_e,
               'escaping must look at the start of EVERY line (^ with MULTILINE), with no limit on the number of replacements', where=esc.where,
-              expected="^ ... re.MULTILINE", found=(pe, fe))
+              expected="^ ... re.MULTILINE", found=shown_e)
     starts = sorted(set(c + l for c, l, _ in rw['cases'])) if rw else None
     rep.check(starts == ['-'], 'C11.1', 'PGPMessage.dash_escape', 'escapes lines starting with %r' % (starts,),
               'every line starting with a dash must be escaped (RFC 4880 7.1 MUST)', where=esc.where, expected='-', found=starts)
@@ -217,14 +270,17 @@ def dash_pair(rep, prog, M):
         for c, l, out in rw['cases']:
             ins.add(out[:len(out) - len(c)] if out is not None and out.endswith(c) else None)
         inserted = ins.pop() if len(ins) == 1 else None
-    rep.check(inserted == '- ', 'C11.1', 'PGPMessage.dash_escape', 'replacement %r' % re_,
-              'the escape prefix is "- " and the line\'s own dash is kept', where=esc.where, expected='- -', found=re_)
-    if u[0] not in ('re', 're-limited'):
+    rep.check(inserted == '- ', 'C11.1', 'PGPMessage.dash_escape', 'inserts %r (%s)' % (inserted, shown_e),
+              'the escape prefix is "- " and the line\'s own dash is kept', where=esc.where, expected='- -', found=shown_e)
+    if u[0] not in ('re', 're-limited', 'lines'):
         rep.violation('C11.1', 'PGPMessage.dash_unescape', 'str.replace', 'unescaping by plain replacement is not anchored at line starts', where=une.where)
         return
-    _, pu, ru, fu = u
-    rwu = line_start_rewrite(pu, ru, fu) if u[0] == 're' else None
-    rep.check(rwu is not None and rwu['every_line'], 'C11.1', 'PGPMessage.dash_unescape', 'pattern %r flags %d' % (pu, fu),
+    if u[0] == 'lines':
+        rwu, shown_u = u[1], 'per-line map %s' % (u[1]['cases'],)
+    else:
+        _, pu, ru, fu = u
+        rwu, shown_u = (line_start_rewrite(pu, ru, fu) if u[0] == 're' else None), 'pattern %r flags %d' % (pu, fu)
+    rep.check(rwu is not None and rwu['every_line'], 'C11.1', 'PGPMessage.dash_unescape', shown_u,
               'unescaping must look at the start of EVERY line (^ with MULTILINE)', where=une.where)
     removed = None
     if rwu and all(l == '' and out == '' for c, l, out in rwu['cases']):
